@@ -288,6 +288,24 @@ TEXT = {
                 "F62 (sync moves a local reference to the latest reference entry's target although a later propagation entry records another state).",
         "technique": "Lean 4 proof (induction over the replay loop with the partial renaming as invariant) + differential correspondence on pairs of real repositories",
     },
+    "C12": {
+        "text": "Model/PolicyOps.lean follows State.Commit, Apply, Discard, ReconcileStaging (all four reference/log consistency cases, fast-forward and rebase of staging) "
+                "and the experimental/gittuf root and rule-file mutators over an abstract repository (policy-commit graph, two references, log). Proved in Lean for EVERY "
+                "repository state, hence after every operation sequence (C12_all_sequences), and for both variants of Apply: C12_apply_refuses (a reference that disagrees with its "
+                "latest log entry => ErrInvalidPolicy and the state is untouched), C12_apply_ok (a successful Apply sets the policy reference to the staging tip left by "
+                "reconciliation, which descends from the old policy tip, is the old staging tip whenever staging was a fast-forward, carries metadata that passed State.Verify, and the log "
+                "gains exactly one policy entry, naming it), C12_refused_apply_policy_untouched, C12_discard_restores, "
+                "C12_root_edit_refused / C12_root_edit_unauthorized (all eight root-of-trust mutators refuse signers outside the root principals of the state being edited, leaving it "
+                "untouched), C12_published_chain_partial (the repaired Apply only publishes states that the fully verified applied state accepts by VerifyNewState: C02's root-signature "
+                "and version conditions); C12_F9_witness / C12_F9_statement_false (kernel-evaluated: on the code as it stands a two-step root rotation applied at once is published and "
+                "LoadState then fails), C12_F9_repaired. The model is compared with the real code after every operation of random and scripted sequences on both layers (references, whole "
+                "log by an independent reader, every new policy commit's parent and decoded metadata, error class, LoadCurrentState and VerifyRefFull around every Apply) and the "
+                "declarative statements are evaluated on the observed states.",
+        "note": TB + "Only stated, not proved: C12_published_verifies_statement (LoadState of the new entry succeeds after the repaired Apply; needs the append lemma for the "
+                "LoadState chain); PublishedVerifies is evaluated by the driver on every successful Apply of the real code. Open finding F9 (Apply never calls VerifyNewState) is reproduced from corpus/C12 on every run. Incidental: AddDelegation panics (nil set in "
+                "State.HasRuleName) on a state without primary rule file; modelled, outside the property.",
+        "technique": "Lean 4 proof (case analysis of ReconcileStaging/Apply, invariants for arbitrary states) + differential correspondence on operation sequences over both API layers",
+    },
 }
 
 NOT_YET = {}
